@@ -87,6 +87,11 @@ func suiteC19(s *Suite, rng *Rng, tier string) {
 					s.Violate("C19:primesqrt-panicked", fmt.Sprintf("PrimeSqrt(%d,%d) panicked: %s", a, p, pan), L{a, p})
 					continue
 				}
+				var psOut V = okV(nil)
+				if ok {
+					psOut = okV(r)
+				}
+				s.Add(1909, "primesqrt", p < 60 && sm(), L{a, p}, psOut)
 				isQR := want == 1 || a == 0
 				if ok != isQR {
 					s.Violate("C19:primesqrt-existence-wrong", fmt.Sprintf("PrimeSqrt(%d,%d) ok=%v", a, p, ok), L{a, p})
@@ -139,9 +144,11 @@ func suiteC19(s *Suite, rng *Rng, tier string) {
 	}
 	// ---- ModSqrt over products of two primes < 100 with / without factor 4 ----
 	small := smallPrimesUpTo(100)[1:]
+	pairs := 0
 	for i, p := range small {
 		for _, q := range small[i+1:] {
-			if (int(p*q)+off)%stride != 0 {
+			pairs++
+			if stride > 1 && (pairs+off)%4 != 0 {
 				continue
 			}
 			for _, four := range []bool{false, true} {
@@ -158,6 +165,11 @@ func suiteC19(s *Suite, rng *Rng, tier string) {
 						s.Violate("C19:modsqrt-panicked", fmt.Sprintf("ModSqrt(%d, %v) panicked: %s", a, factors, pan), L{a, n})
 						continue
 					}
+					var msOut V = okV(nil)
+					if ok {
+						msOut = okV(r)
+					}
+					s.Add(1910, "modsqrt", n < 200 && sm(), L{a, dumpBigs(factors)}, msOut)
 					// reference: brute force
 					exists := false
 					for t := int64(0); t < n; t++ {
@@ -170,6 +182,107 @@ func suiteC19(s *Suite, rng *Rng, tier string) {
 						s.Violate("C19:modsqrt-existence-wrong", fmt.Sprintf("ModSqrt(%d, %v) ok=%v, a square root exists: %v", a, factors, ok, exists), L{a, n})
 					} else if ok && new(gbig.Int).Mod(new(gbig.Int).Mul(r, r), bi(n)).Cmp(bi(a)) != 0 {
 						s.Violate("C19:modsqrt-wrong", fmt.Sprintf("ModSqrt(%d, %v) = %s", a, factors, r), L{a, n})
+					}
+				}
+			}
+		}
+	}
+	// ---- square roots modulo large primes of every class mod 8 (shortcut / Tonelli-Shanks with long 2-parts), and
+	//      modulo products of two or three of them with and without the factor 4 ----
+	{
+		var bigPrimes []*gbig.Int
+		nbig := 12
+		if tier == "thorough" {
+			nbig = 60
+		}
+		for i := 0; i < nbig; i++ {
+			var p *gbig.Int
+			if i%3 == 0 {
+				// p = k * 2^e + 1 with a long power of two in p - 1
+				e := uint(3 + rng.Intn(40))
+				for {
+					k := rng.Bits(40 + rng.Intn(100))
+					k.SetBit(k, 0, 1)
+					p = new(gbig.Int).Lsh(k, e)
+					p.Add(p, bi(1))
+					if p.ProbablyPrime(30) {
+						break
+					}
+				}
+			} else {
+				p = nextPrime(new(gbig.Int).Add(rng.Bits(30+rng.Intn(230)), pow2(29)), 1)
+			}
+			bigPrimes = append(bigPrimes, p)
+			for k := 0; k < 6; k++ {
+				a := rng.Below(p)
+				if k%2 == 0 {
+					a.Mul(a, a).Mod(a, p)
+				}
+				var r *gbig.Int
+				var ok bool
+				if pan := catchPanic(func() { r, ok = gabi.VerifPrimeSqrt(cp(a), cp(p)) }); pan != "" {
+					s.Violate("C19:primesqrt-panicked", fmt.Sprintf("PrimeSqrt(%s,%s) panicked: %s", a, p, pan), L{a, p})
+					continue
+				}
+				var out V = okV(nil)
+				if ok {
+					out = okV(r)
+				}
+				s.Add(1909, fmt.Sprintf("primesqrt-large:p mod 8 = %d", new(gbig.Int).Mod(p, bi(8)).Int64()), false, L{a, p}, out)
+				s.Nontrivial[fmt.Sprint("PS", a, p)] = true
+				isQR := a.Sign() == 0 || big.Jacobi(a.Go(), p.Go()) == 1
+				if ok != isQR {
+					s.Violate("C19:primesqrt-existence-wrong", fmt.Sprintf("PrimeSqrt(%s,%s) ok=%v", a, p, ok), L{a, p})
+				}
+				if ok && new(gbig.Int).Mod(new(gbig.Int).Mul(r, r), p).Cmp(a) != 0 {
+					s.Violate("C19:primesqrt-wrong", fmt.Sprintf("PrimeSqrt(%s,%s) = %s does not square to a", a, p, r), L{a, p})
+				}
+			}
+		}
+		for i := 0; i+2 < len(bigPrimes); i += 2 {
+			for _, four := range []bool{false, true} {
+				factors := []*gbig.Int{bigPrimes[i], bigPrimes[i+1]}
+				if i%4 == 0 {
+					factors = append(factors, bigPrimes[i+2])
+				}
+				distinct := true
+				n := bi(1)
+				for j, f := range factors {
+					for _, g := range factors[:j] {
+						if f.Cmp(g) == 0 {
+							distinct = false
+						}
+					}
+					n.Mul(n, f)
+				}
+				if !distinct {
+					continue
+				}
+				if four {
+					factors = append([]*gbig.Int{bi(4)}, factors...)
+					n.Mul(n, bi(4))
+				}
+				for k := 0; k < 4; k++ {
+					a := rng.Below(n)
+					if k > 0 {
+						a.Mul(a, a).Mod(a, n)
+					}
+					var r *gbig.Int
+					var ok bool
+					if pan := catchPanic(func() { r, ok = gabi.VerifModSqrt(cp(a), factors) }); pan != "" {
+						s.Violate("C19:modsqrt-panicked", fmt.Sprintf("ModSqrt(%s, %v) panicked: %s", a, factors, pan), L{a, n})
+						continue
+					}
+					var out V = okV(nil)
+					if ok {
+						out = okV(r)
+					}
+					s.Add(1910, fmt.Sprintf("modsqrt-large:%d factors", len(factors)), false, L{a, dumpBigs(factors)}, out)
+					if k > 0 && !ok {
+						s.Violate("C19:modsqrt-existence-wrong", fmt.Sprintf("ModSqrt(%s, %v) finds no root of a square", a, factors), L{a, n})
+					}
+					if ok && new(gbig.Int).Mod(new(gbig.Int).Mul(r, r), n).Cmp(a) != 0 {
+						s.Violate("C19:modsqrt-wrong", fmt.Sprintf("ModSqrt(%s, %v) = %s", a, factors, r), L{a, n})
 					}
 				}
 			}
@@ -285,7 +398,8 @@ func suiteC19(s *Suite, rng *Rng, tier string) {
 	for i := 0; i < 60; i++ {
 		// the moduli the library actually uses it for: big primes 2^b - small c, and disabled ones
 		bb := uint(64 + rng.Intn(1000))
-		p := new(gbig.Int).Sub(pow2(bb), rng.Bits(1+rng.Intn(80)))
+		// (the subtracted part is kept shorter than bb bits: the modulus must stay positive)
+		p := new(gbig.Int).Sub(pow2(bb), rng.Bits(1+rng.Intn(63)))
 		x := rng.Bits(1 + rng.Intn(4096))
 		if i%5 == 0 {
 			x.Neg(x)
